@@ -253,7 +253,7 @@ def replay_radix(r):
     res = vlib.zw_queries(['%d %s' % (val, word)], OUT)
     if not res or res[0][0] is None:
         return {'reproduced': False, 'error': 'query failed: %r' % (res,)}
-    text = res[0][1].strip()
+    text = res[0][1].strip().strip('<>').split('|')[-1]
     res2 = vlib.zw_queries(['(%s) == (%d)' % (text, val), '%s %s' % (text, word)], OUT)
     same_value = bool(res2 and res2[0][0])
     return {'reproduced': not same_value, 'value': val, 'domain': word, 'rendering_on_real_library': text,
